@@ -54,3 +54,23 @@ k_cdda_offset_from_str!(k_cdda_offset_from_str_m2, 2, 10);
 // (built and removed: a list of concrete extreme texts such as "4099276460824345:00:00" -- even one concrete 22-character text
 // does not finish in 10 min: std's str searching over a literal is not constant-folded by CBMC.  The overflow of
 // mm * 75 * 60 for minutes >= 4.1e15 is therefore NOT decided; see DESIGN.md section 6, unrepaired defects.)
+
+// ---- CDDAOffset::from_str: the arithmetic on the three parsed numbers never overflows (C12) ----
+// The decimal parser of std is replaced by an oracle (any u64, or a parse error): with a short concrete text the
+// splitting is cheap and the three numbers range over all of u64, which is where the overflow lives.
+fn stub_u64_from_str(_s: &str) -> Result<u64, std::num::ParseIntError> {
+    if kani::any() {
+        Ok(kani::any())
+    } else {
+        "x".parse::<u8>().map(|v| v as u64)
+    }
+}
+#[kani::proof]
+#[kani::unwind(12)]
+#[kani::stub(<u64 as std::str::FromStr>::from_str, stub_u64_from_str)]
+pub(crate) fn k_cdda_offset_arith_total() {
+    let r = CDDAOffset::from_str("1:2:3");
+    if let Ok(o) = r {
+        vk_assert!(o.offset % 588 == 0, "an accepted offset is a whole number of CD sectors");
+    }
+}
